@@ -81,6 +81,9 @@ impl<'a> Interp<'a> {
             self.out.steps += 1;
             self.exec(op)?;
             self.check_panics("after step")?;
+            if self.abort {
+                return Ok(());
+            }
             if self.focus() == "C16" {
                 self.counts_check("after step")?;
             }
@@ -237,51 +240,64 @@ impl<'a> Interp<'a> {
         // which partition took it? expected-if-target(p) accounts for per-partition dedup
         let mut landed: Option<u32> = None;
         let mut any_could_be_empty = false;
-        for pid in 1..=nparts as u32 {
-            if let Some(f) = fixed_pid {
-                if f != pid && !matches!(self.focus(), "C17" | "C01") {
+        let scan_deadline = std::time::Instant::now() + std::time::Duration::from_secs(3);
+        loop {
+            for pid in 1..=nparts as u32 {
+                if let Some(f) = fixed_pid {
+                    if f != pid && !matches!(self.focus(), "C17" | "C01") {
+                        continue;
+                    }
+                }
+                let idx = (pid - 1) as usize;
+                let exp: Vec<usize> = self.expected_kept(idx, &model_msgs);
+                if exp.is_empty() {
+                    any_could_be_empty = true;
+                }
+                let next = self.parts[idx].next();
+                let want = if fixed_pid == Some(pid) || landed == Some(pid) { exp.len() } else { 0 };
+                let mut pm = self.poll_offset(pid, next, (model_msgs.len() + 2) as u32, want)?;
+                if pm.messages.is_empty() {
                     continue;
                 }
-            }
-            let idx = (pid - 1) as usize;
-            let exp: Vec<usize> = self.expected_kept(idx, &model_msgs);
-            if exp.is_empty() {
-                any_could_be_empty = true;
-            }
-            let next = self.parts[idx].next();
-            let want = if fixed_pid == Some(pid) || (fixed_pid.is_none() && landed.is_none() && pid == nparts as u32) { exp.len() } else { 0 };
-            let pm = self.poll_offset(pid, next, (model_msgs.len() + 2) as u32, want)?;
-            if pm.messages.is_empty() {
-                continue;
-            }
-            if let Some(other) = landed {
-                if let Some(pr) = self.attr(&["C17", "C01"]) {
-                    return Err(self.fail(&pr, "send-stored-in-two-partitions", format!("one send grew partition {other} and partition {pid}")));
+                if pm.messages.len() < exp.len() && self.cfg.no_wait {
+                    // partially visible under no-wait: re-read until complete (8.1-10)
+                    pm = self.poll_offset(pid, next, (model_msgs.len() + 2) as u32, exp.len())?;
                 }
-            }
-            if let Some(f) = fixed_pid {
-                if f != pid {
-                    if let Some(pr) = self.attr(&["C17", "C01"]) {
-                        return Err(self.fail(&pr, "send-stored-in-wrong-partition", format!("send addressed to partition {f} grew partition {pid}")));
+                if let Some(other) = landed {
+                    if other != pid {
+                        if let Some(pr) = self.attr(&["C17", "C01"]) {
+                            return Err(self.fail(&pr, "send-stored-in-two-partitions", format!("one send grew partition {other} and partition {pid}")));
+                        }
+                    }
+                }
+                if let Some(f) = fixed_pid {
+                    if f != pid {
+                        if let Some(pr) = self.attr(&["C17", "C01"]) {
+                            return Err(self.fail(&pr, "send-stored-in-wrong-partition", format!("send addressed to partition {f} grew partition {pid}")));
+                        }
+                    }
+                }
+                landed = Some(pid);
+                // the new tail must be exactly the kept messages, in the order given (C01/C18)
+                let encrypted = self.cfg.encryption != 0;
+                if pm.messages.len() != exp.len() {
+                    let pr = if self.cfg.dedup { self.attr(&["C18", "C01"]).unwrap_or(prop.clone()) } else { prop.clone() };
+                    let ids: Vec<u128> = pm.messages.iter().map(|m| m.id).collect();
+                    return Err(self.fail(&pr, "tail-after-send-count", format!(
+                        "partition {pid}: after a send of {} messages (dedup {}), {} new messages are readable from offset {next} where {} were expected (ids read {:?}, ids sent {:?})",
+                        model_msgs.len(), self.cfg.dedup, pm.messages.len(), exp.len(), ids, model_msgs.iter().map(|m| m.id).collect::<Vec<_>>())));
+                }
+                for (j, m) in pm.messages.iter().enumerate() {
+                    let mut mm = model_msgs[exp[j]].clone();
+                    if let Err(d) = msgs::compare(m, next + j as u64, &mut mm, encrypted, true) {
+                        return Err(self.fail(&prop, "tail-after-send-mismatch", format!("partition {pid}: {d}")));
                     }
                 }
             }
-            landed = Some(pid);
-            // the new tail must be exactly the kept messages, in the order given (C01/C18)
-            let encrypted = self.cfg.encryption != 0;
-            if pm.messages.len() != exp.len() {
-                let pr = if self.cfg.dedup { self.attr(&["C18", "C01"]).unwrap_or(prop.clone()) } else { prop.clone() };
-                let ids: Vec<u128> = pm.messages.iter().map(|m| m.id).collect();
-                return Err(self.fail(&pr, "tail-after-send-count", format!(
-                    "partition {pid}: after a send of {} messages (dedup {}), {} new messages are readable from offset {next} where {} were expected (ids read {:?}, ids sent {:?})",
-                    model_msgs.len(), self.cfg.dedup, pm.messages.len(), exp.len(), ids, model_msgs.iter().map(|m| m.id).collect::<Vec<_>>())));
+            if landed.is_some() || !self.cfg.no_wait || any_could_be_empty || std::time::Instant::now() > scan_deadline {
+                break;
             }
-            for (j, m) in pm.messages.iter().enumerate() {
-                let mut mm = model_msgs[exp[j]].clone();
-                if let Err(d) = msgs::compare(m, next + j as u64, &mut mm, encrypted, true) {
-                    return Err(self.fail(&prop, "tail-after-send-mismatch", format!("partition {pid}: {d}")));
-                }
-            }
+            self.node().settle(2);
         }
         let Some(pid) = landed else {
             if any_could_be_empty || fixed_pid.map(|f| self.expected_kept((f - 1) as usize, &model_msgs).is_empty()).unwrap_or(false) {
